@@ -550,6 +550,6 @@ def run(ctx):
   rule_e(ctx)
   rule_g(ctx)
   rule_h(ctx)
-  S.optional_truthiness_obligations(ctx, 'C11.z', ['pyglove/core/geno/base.py', 'pyglove/core/geno/categorical.py', 'pyglove/core/geno/numerical.py', 'pyglove/core/geno/space.py', 'pyglove/core/geno/sweeping.py', 'pyglove/core/geno/random.py'], 'index 0, bound 0.0 and seed 0 are values')
+  S.optional_truthiness_obligations(ctx, 'C11.z', ['pyglove/core/geno/base.py', 'pyglove/core/geno/categorical.py', 'pyglove/core/geno/numerical.py', 'pyglove/core/geno/space.py', 'pyglove/core/geno/sweeping.py', 'pyglove/core/geno/random.py'], 'index 0, bound 0.0 and seed 0 are values; an empty DNASpec (constant space) is a spec', sized_classes=('DNASpec', 'DNA', 'Space', 'DecisionPoint'))
   ctx.assume('exactness of the odometer (next_dna) against the counting formula is arithmetic over '
              'runtime sizes: not decided statically')
